@@ -95,6 +95,14 @@ func (h *H) Name() string     { return "h1pipe" }
 func (h *H) Props() []string  { return []string{"C01", "C02", "C04", "C05"} }
 func (h *H) NewCfg() core.Cfg { return &Cfg{} }
 
+// Weight: C05 is shared with the outputs harness, which takes one slot in five.
+func (h *H) Weight(prop string) int {
+	if prop == "C05" {
+		return 2
+	}
+	return 1
+}
+
 func (h *H) Gen(rng *rand.Rand, tier, prop string) core.Cfg {
 	c := &Cfg{}
 	c.Sim = simrt.Config{
